@@ -19,7 +19,6 @@ func runHugeTree(c *core.Ctx, h int, n int, flags func(m *KVMon[int, int])) {
 	kind := hugeKinds[h%len(hugeKinds)]
 	fam := []int{1, 0, 2}[(h/len(hugeKinds))%3] // descending, ascending, zig-zag: each kind gets each order
 	r := c.R
-	d := IntDom(8)
 	cm := intCmps[[]int{0, 1, 3}[r.Intn(3)]] // total orders: every key is its own class
 	var a *KV[int, int]
 	switch kind {
@@ -34,10 +33,42 @@ func runHugeTree(c *core.Ctx, h int, n int, flags func(m *KVMon[int, int])) {
 	default:
 		a = newTreeBidi[int, int](cm, intCmps[[]int{0, 1, 3}[r.Intn(3)]])
 	}
+	hugeDrive(c, a, n, fam, flags)
+	c.Count("obs:huge-cases", 1)
+}
+
+// wideBTreeCases: B-trees whose nodes hold a hundred to a thousand keys, with
+// enough keys for three levels, loaded in each of the six order families.
+// Whatever is linear in the node width (a scan where a bisection belongs, an
+// element-by-element shift repeated per key) only shows against the stated
+// per-call bound when nodes are this wide and full.
+const wideBTreeCases = 12
+
+var wideOrders = []int{100, 128, 200, 256, 500, 1000}
+
+func runWideBTree(c *core.Ctx, j int, flags func(m *KVMon[int, int])) {
+	r := c.R
+	order := wideOrders[j%len(wideOrders)]
+	fam := (j/len(wideOrders))*3 + r.Intn(3) // 0..5
+	n := r.Range(12000, 40000)
+	if c.Tier == "thorough" {
+		n = r.Range(60000, 300000)
+	}
+	cm := intCmps[[]int{0, 1, 3}[r.Intn(3)]]
+	a := newBTree[int, int](order, cm)
+	hugeDrive(c, a, n, fam, flags)
+	c.Count("obs:wide-btree-cases", 1)
+	c.Count("btree-order:"+itoa(order), 1)
+}
+
+func hugeDrive(c *core.Ctx, a *KV[int, int], n int, fam int, flags func(m *KVMon[int, int])) {
+	r := c.R
+	d := IntDom(8)
+	kind := a.Name
 	c.Begin(a.Name, "NewWith", a.Order, a.CmpName)
 	m := NewKVMon(c, a, d) // only for the flags and the work bound; its model is not used
 	flags(m)
-	c.Note("huge %s: %d keys inserted %s", kind, n, orderNames[fam])
+	c.Note("huge %s: %d keys inserted %s", kind, n, orderNames[fam%6])
 	val := func(k int) int { return 7*k + 1 }
 	live := make([]int, 0, n)
 	checkpoint := func(when string) {
@@ -134,7 +165,6 @@ func runHugeTree(c *core.Ctx, h int, n int, flags func(m *KVMon[int, int])) {
 	a.M.Clear()
 	live = live[:0]
 	checkpoint("after Clear")
-	c.Count("obs:huge-cases", 1)
 	c.Nontrivial()
 }
 
